@@ -294,3 +294,32 @@ func errClass(msg string) string {
 	}
 	return "other:" + msg
 }
+
+// who-am-I bodies: make the authenticated sender observable on every route
+func (t *HToken) TxWhoAmI(sender *types.Sender, tag string) error {
+	return t.GetStub().PutState("who_"+tag, []byte(sender.Address().String()))
+}
+
+func (t *HToken) NBTxNbWhoAmI(sender *types.Sender, tag string) error {
+	return t.GetStub().PutState("who_"+tag, []byte(sender.Address().String()))
+}
+
+func (t *HToken) QueryQWhoAmI(sender *types.Sender, tag string) (string, error) {
+	_ = tag
+	return sender.Address().String(), nil
+}
+
+// two-argument bodies for the C03 boundary operators
+func (t *HToken) TxEcho2(sender *types.Sender, a string, b string) error {
+	return t.GetStub().PutState("who_"+a, []byte(sender.Address().String()))
+}
+
+func (t *HToken) NBTxNbEcho2(sender *types.Sender, a string, b string) error {
+	return t.GetStub().PutState("who_"+a, []byte(sender.Address().String()))
+}
+
+func (t *HToken) QueryQEcho2(sender *types.Sender, a string, b string) (string, error) {
+	return sender.Address().String(), nil
+}
+
+func (t *HToken) TxScript2(_ *types.Sender, a string, b string) error { return nil }
